@@ -59,6 +59,7 @@ type Exec struct {
 	usesLambda   bool
 	branches     []branchCond
 	branchSeen   map[string]bool
+	retSiteHits  map[string]int
 	autoOff      map[string]bool // disabled auto-invariant candidates (Houdini)
 	autoSeen     []string
 }
@@ -109,6 +110,8 @@ type Frame struct {
 	params    map[string]*Val
 	paramT    map[string]types.Type
 	cur       *ssa.BasicBlock
+	lookBlock *ssa.BasicBlock // contract identifier resolution point
+	lookAtEnd bool
 	st        *State
 	backEdges map[[2]*ssa.BasicBlock]bool
 	callStack []*ssa.Function
@@ -128,7 +131,7 @@ func newExec(P *Prog, fn *ssa.Function, spec *FuncSpec, thorough bool, forceMode
 	ex := &Exec{P: P, q: newQ(intMode), ar: ar, ls: &layouts{ar: ar, cache: map[types.Type]*Layout{}}, top: fn, spec: spec,
 		heapSorts: map[string]Sort{}, initHeaps: map[string]*HeapV{}, factDone: map[string]bool{}, events: map[string]*heapEvent{},
 		havocked: map[string]bool{}, nameCount: map[string]int{}, trusted: map[string]bool{}, inlined: map[string]bool{},
-		strLits: map[string]string{}, globIDs: map[string]int{}, thorough: thorough, branchSeen: map[string]bool{}}
+		strLits: map[string]string{}, globIDs: map[string]int{}, thorough: thorough, branchSeen: map[string]bool{}, retSiteHits: map[string]int{}}
 	ex.ctr0 = ex.q.fresh("ctr0", SInt)
 	ex.q.assume("(>= " + ex.ctr0 + " 0)")
 	ex.q.lines = append(ex.q.lines, "(declare-const f64zero F64)")
@@ -899,6 +902,7 @@ func (fr *Frame) loopHead(li *loopInfo) {
 		ls = fr.spec.Loops[li.ordinal]
 	}
 	ls = ls.forTier(ex.thorough)
+	fr.lookBlock, fr.lookAtEnd = b, false
 	li.preSt = fr.st.clone()
 	li.autos = fr.autoCandidates(li)
 	for _, a := range li.autos {
@@ -1039,6 +1043,7 @@ func (fr *Frame) backEdge(from *ssa.BasicBlock, li *loopInfo, cond string) {
 		ls = fr.spec.Loops[li.ordinal]
 	}
 	ls = ls.forTier(ex.thorough)
+	fr.lookBlock, fr.lookAtEnd = from, true
 	if ls == nil && len(li.autos) == 0 {
 		return
 	}
@@ -1111,6 +1116,40 @@ func (fr *Frame) backEdge(from *ssa.BasicBlock, li *loopInfo, cond string) {
 func (fr *Frame) execBlock(b *ssa.BasicBlock) {
 	for _, in := range b.Instrs {
 		fr.execInstr(in)
+	}
+	// edges leaving the innermost loop: exit clauses
+	if li := fr.inLoop[b]; li != nil && fr.spec != nil && li.ordinal > 0 {
+		if ls := fr.spec.Loops[li.ordinal]; ls != nil && len(ls.Exits) > 0 {
+			for _, s := range b.Succs {
+				if li.body[s] {
+					continue
+				}
+				saveReach := fr.reach[b]
+				fr.reach[b] = fr.ex.q.def("exit", SBool, fr.edgeCond(b, s))
+				fr.lookBlock, fr.lookAtEnd = b, true
+				for _, c := range ls.Exits {
+					if c.Thor && !fr.ex.thorough {
+						continue
+					}
+					cur := map[string]*Val{}
+					for _, in := range li.header.Instrs {
+						if phi, ok := in.(*ssa.Phi); ok {
+							if v, has := fr.vals[phi]; has {
+								cur[phi.Comment] = v
+							}
+						}
+					}
+					cx := fr.loopCtx(li, nil, fr.st, true)
+					cx.old = li.entrySt
+					cx.oldVals = li.entryVals
+					o := fr.oblige("exit", fmt.Sprintf("loop%d:%s", li.ordinal, clauseName(c)), cx.evalBool(c.Expr), token.NoPos)
+					if o != nil {
+						o.Label, o.Mode = c.Label, c.Mode
+					}
+				}
+				fr.reach[b] = saveReach
+			}
+		}
 	}
 	// back edges out of this block
 	for _, s := range b.Succs {
